@@ -147,6 +147,56 @@ func SetExhaustive(id string) {
 	s.mu.Unlock()
 }
 
+var (
+	surveyMu    sync.Mutex
+	surveyKinds = map[string]*surveyEntry{}
+)
+
+type surveyEntry struct {
+	n   int
+	js  []byte
+	msg string
+}
+
+// surveyAdd records a failure without stopping (development aid:
+// VERIF_SURVEY=1 lists every failure kind of a run with its smallest case).
+func surveyAdd(c any, msg string) {
+	js, _ := json.Marshal(c)
+	k := failKind(msg)
+	surveyMu.Lock()
+	defer surveyMu.Unlock()
+	e := surveyKinds[k]
+	if e == nil {
+		e = &surveyEntry{}
+		surveyKinds[k] = e
+	}
+	e.n++
+	if e.js == nil || len(js) < len(e.js) {
+		e.js, e.msg = js, msg
+	}
+}
+
+func surveyDump[C any](p Prop[C]) {
+	surveyMu.Lock()
+	defer surveyMu.Unlock()
+	var ks []string
+	for k := range surveyKinds {
+		ks = append(ks, k)
+	}
+	sort.Slice(ks, func(i, j int) bool { return surveyKinds[ks[i]].n > surveyKinds[ks[j]].n })
+	for _, k := range ks {
+		e := surveyKinds[k]
+		var c C
+		if json.Unmarshal(e.js, &c) == nil {
+			if c2, r, ok := minimizeCase(p, c); ok {
+				e.js, _ = json.Marshal(c2)
+				e.msg = r.Err
+			}
+		}
+		fmt.Printf("SURVEY %5d  %s\n        case: %s\n        msg: %s\n", e.n, k, e.js, oneLine(e.msg))
+	}
+}
+
 // Flush writes the statistics file; call it from TestMain after m.Run.
 func Flush() {
 	if st == nil {
@@ -268,6 +318,10 @@ type Prop[C any] struct {
 	ID    string
 	Gen   func(t *rapid.T) C
 	Check func(c C) Result
+	// Text, if set, points at the case's main text field; a failing case is
+	// then minimised further by delta debugging on that text (the driver
+	// calls the test binary with VERIF_MINIMIZE=<replay file>).
+	Text func(c *C) *string
 }
 
 // Run drives the property: replay mode when VERIF_REPLAY is set, otherwise
@@ -284,18 +338,34 @@ func Run[C any](t *testing.T, p Prop[C]) {
 			fmt.Printf("REPLAY-FAIL property=%s %s\n", p.ID, oneLine(r.Err))
 			t.Fatalf("%s", r.Err)
 		}
+		if r.Skipped {
+			fmt.Printf("REPLAY-SKIPPED property=%s (case outside the property's domain or in an active exclusion class)\n", p.ID)
+			return
+		}
 		fmt.Printf("REPLAY-OK property=%s\n", p.ID)
 		return
 	}
+	if mp := os.Getenv("VERIF_MINIMIZE"); mp != "" {
+		minimize(t, p, mp)
+		return
+	}
+	survey := os.Getenv("VERIF_SURVEY") != ""
 	rapid.Check(t, func(rt *rapid.T) {
 		c := p.Gen(rt)
 		r := safeCheck(p, c)
 		Record(p.ID, c, r)
+		if r.Err != "" && survey {
+			surveyAdd(c, r.Err)
+			return
+		}
 		if r.Err != "" {
 			path := SaveReplay(p.ID, c, r.Err)
 			rt.Fatalf("property %s violated (replay %s): %s", p.ID, path, r.Err)
 		}
 	})
+	if survey {
+		surveyDump(p)
+	}
 }
 
 // Each runs the property over one enumerated case (no rapid); it returns
@@ -326,4 +396,123 @@ func oneLine(s string) string {
 		s = s[:400] + "..."
 	}
 	return s
+}
+
+// failKind identifies the kind of a failure: the first line of the message
+// with digits removed (so positions and counts do not matter) and quoted
+// excerpts of the case dropped.
+func failKind(msg string) string {
+	if i := strings.IndexByte(msg, '\n'); i >= 0 {
+		msg = msg[:i]
+	}
+	var sb strings.Builder
+	inq := false
+	for i := 0; i < len(msg); i++ {
+		c := msg[i]
+		switch {
+		case c == '"' && (i == 0 || msg[i-1] != '\\'):
+			inq = !inq
+		case inq || (c >= '0' && c <= '9'):
+		default:
+			sb.WriteByte(c)
+		}
+	}
+	return sb.String()
+}
+
+// minimize shrinks the text of a saved failing case by delta debugging
+// (chunks of lines, then chunks of bytes), keeping the failure kind, and
+// rewrites the replay file in place.
+func minimize[C any](t *testing.T, p Prop[C], path string) {
+	var c C
+	if err := LoadReplay(path, &c); err != nil {
+		t.Fatalf("minimize: %v", err)
+	}
+	c2, r, ok := minimizeCase(p, c)
+	if !ok {
+		fmt.Printf("MINIMIZE property=%s: nothing to do\n", p.ID)
+		return
+	}
+	js, _ := json.Marshal(c2)
+	doc := map[string]any{}
+	if b, err := os.ReadFile(path); err == nil {
+		json.Unmarshal(b, &doc)
+	}
+	doc["case"] = json.RawMessage(js)
+	doc["message"] = r.Err
+	doc["minimized"] = true
+	out, _ := json.MarshalIndent(doc, "", " ")
+	os.WriteFile(path, out, 0o644)
+	fmt.Printf("MINIMIZE property=%s: text reduced to %d bytes\n", p.ID, len(*p.Text(&c2)))
+}
+
+func minimizeCase[C any](p Prop[C], c C) (C, Result, bool) {
+	if p.Text == nil {
+		return c, Result{}, false
+	}
+	r0 := safeCheck(p, c)
+	if r0.Err == "" {
+		return c, r0, false
+	}
+	kind := failKind(r0.Err)
+	budget := 4000
+	clone := func() C {
+		var c2 C
+		js, _ := json.Marshal(c)
+		json.Unmarshal(js, &c2)
+		return c2
+	}
+	fails := func(s string) bool {
+		if budget <= 0 {
+			return false
+		}
+		budget--
+		c2 := clone()
+		*p.Text(&c2) = s
+		r := safeCheck(p, c2)
+		return r.Err != "" && failKind(r.Err) == kind
+	}
+	cur := *p.Text(&c)
+	split := func(s string, lines bool) []string {
+		if lines {
+			return strings.SplitAfter(s, "\n")
+		}
+		out := make([]string, 0, len(s))
+		for i := 0; i < len(s); i++ {
+			out = append(out, s[i:i+1])
+		}
+		return out
+	}
+	for _, lines := range []bool{true, false} {
+		parts := split(cur, lines)
+		n := 2
+		for len(parts) >= 2 && budget > 0 {
+			chunk := (len(parts) + n - 1) / n
+			reduced := false
+			for i := 0; i < len(parts); i += chunk {
+				end := min(len(parts), i+chunk)
+				cand := strings.Join(parts[:i], "") + strings.Join(parts[end:], "")
+				if fails(cand) {
+					parts = append(append([]string{}, parts[:i]...), parts[end:]...)
+					n = max(n-1, 2)
+					reduced = true
+					break
+				}
+			}
+			if !reduced {
+				if chunk == 1 {
+					break
+				}
+				n = min(n*2, len(parts))
+			}
+		}
+		cur = strings.Join(parts, "")
+	}
+	c2 := clone()
+	*p.Text(&c2) = cur
+	r := safeCheck(p, c2)
+	if r.Err == "" {
+		return c, r0, false
+	}
+	return c2, r, true
 }
